@@ -136,6 +136,10 @@ INSTANCES = [
     ("skewy", ["-20"]), ("skewy", ["20deg"]), ("skewy", ["-25grad"]), ("skewy", ["0.3rad"]), ("skewy", ["-0.05turn"]),
     ("skew", ["30"]), ("skew", ["30", "-20"]), ("skew", ["0.3rad", "10grad"]), ("skew", ["0", "25"]),
     ("translate", ["+3", ".5"]), ("scale", ["1e1", "-7.5e-1"]), ("rotate", ["+3e1"]), ("translate", ["0", "0"]),
+    # angles a hair away from the multiples of a quarter turn (a "clean up cos(90deg)" snap must not swallow them), and
+    # angles beyond a full turn
+    ("rotate", ["0.00001"]), ("rotate", ["89.99996"]), ("rotate", ["0.2500001turn"]), ("rotate", ["200.00004grad"]),
+    ("rotate", ["1e-5rad"]), ("skewx", ["0.00002"]), ("rotate", ["450"]), ("rotate", ["-810"]), ("rotate", ["179.99999", "4", "-3"]),
 ]
 CORE16 = [INSTANCES[i] for i in (0, 2, 3, 4, 6, 7, 8, 9, 10, 14, 17, 20, 25, 31, 13, 1)]
 CORE3 = [("rotate", ["30"]), ("translate", ["3", "-2"]), ("scale", ["2", "3"])]
